@@ -41,9 +41,9 @@ def main():
     c = Check("C09", a.tier, a.seed)
     if a.replay:
         r = json.load(open(a.replay)); c.seed, c.tier = r["seed"], r["tier"]
-    ok_mk, log = c.make([PROPS + "o", "Model/C09Run.vo", "Model/C10Run.vo"])   # Extract.v needs every run wrapper
-    thms = theorems_of(PROPS)
-    assumptions = c.audit("Props.C09", thms) if ok_mk and thms else {}
+    ok_mk, log = c.make(props("C09")[2] + ["Model/C09Run.vo", "Model/StarkShape.vo", "Model/C10Run.vo"])   # Extract.v needs every run wrapper
+    thms = theorems_of(*props("C09")[0])
+    assumptions = c.audit(props("C09")[1], thms) if ok_mk and thms else {}
     binary = c.build_harness("release")
     casefile = os.path.join(c.work, "cases.txt")
     n, dist, fails, samples, panics, nfam = 0, {}, [], [], {}, 0
@@ -61,7 +61,7 @@ def main():
                         g.write(line[:-len("= panic\n")] + "= fail\n" if line.endswith("= panic\n") else line)
                 counts, mism, total = c.run_model(cli, "c09", mfile)
                 if mism:
-                    c.broken.append("Model/Stark.v disagrees with the implementation on %d cases, first: %s" % (total[1], mism[0][:300]))
+                    c.broken.append("Model/Stark.v / Model/StarkShape.v disagrees with the implementation on %d cases, first: %s" % (total[1], mism[0][:300]))
     # debug build: the prover checks the constraints itself (check_constraints) and must refuse
     if a.tier == "thorough" or os.environ.get("VERIF_C09_DEBUG"):
         dbin = c.build_harness("debug")
@@ -89,7 +89,7 @@ def main():
         "programs": nfam, "disagreements_checked": total[0], "samples": samples or ["none"],
         "obligations": len(thms), "discharged": len([t for t in thms if assumptions.get(t, "").startswith("Closed")]),
         "theorems": {t: assumptions.get(t, "not checked") for t in thms},
-        "checker_cmd": "make -C coq Props/C09.vo && coqc Audit (Print Assumptions); harness c09; model_cli c09",
+        "checker_cmd": "make -C coq Props/C09.vo Props/C09b.vo && coqc Audit (Print Assumptions); harness c09; model_cli c09",
         "trusted_base": ["Coq 8.16.1 kernel", "extraction (ExtrOcamlBasic, ExtrOcamlZBigInt), extract/main.ml",
                          "harness/src/c09.rs (STARK family defined through the public Stark trait)", "tools/spec_c09.py",
                          "starky verif_hooks: eval_l_0_and_l_last re-export, lenient quotient truncation"],
@@ -100,7 +100,10 @@ def main():
                 "first/last/transition/always constraints as data), 6 StarkConfig choices, trace lengths 2^3..2^7; honest, "
                 "single-cell corruptions at first/interior/before-last/last(wrap-around) rows with the expected verdict from "
                 "the harness' own satisfaction check (replayed by the Python oracle and the Coq model), wrong public inputs, "
-                "serde-tree tamper sweep of accepted proofs; correspondence of eval_l_0_and_l_last, ConstraintConsumer, "
+                "serde-tree tamper sweep of accepted proofs; a forger that never commits to the quotient polynomials "
+                "(quotient_polys_cap = None, openings fitted after zeta) on violating and honest traces; presence / length "
+                "variants of every optional part of the proof with the verdict of validate_proof_shape replayed by "
+                "Model/StarkShape.v; correspondence of eval_l_0_and_l_last, ConstraintConsumer, "
                 "Stark::eval_ext and the verifier's quotient identity with Model/Stark.v",
     }
     c.finish("translation_validation", coverage, [
